@@ -18,7 +18,7 @@ checks = {
  "C07": dict(engine="hdrmc", cat="model_checking", ref="DESIGN.md 3, 7 C07",
    text="all histories with 1-2 subscribers registered at any point (from genesis, and on base chains of 9997 / 9998 headers with forks and extensions across the automatic clean at height 10000; a subscriber lagging 12000 announcements behind; two concurrent submitters with the subscriber's buffer exactly full): the batch drained after every operation must equal the new best chain above the fork point, and a subscriber-side replayer must reconstruct exactly the reported chain",
    note=A_NOTE, tech=A_TECH),
- "C08": dict(engine="hdrmc", cat="model_checking", ref="DESIGN.md 3, 7 C08",
+ "C08": dict(engine="hdrmc+powenum", cat="model_checking", ref="DESIGN.md 3, 7 C08",
    text="at every reachable state every adversarial next header (orphan, duplicate of any known header, child at/over the fork-depth limit for MaxBranchDepth 0,1,2,144, configured-invalid incl. a configured list that grows at a restart, wrong-chain under a synthetic split table, bad work) must get a verdict the set-valued reference allows, and after a non-accepting answer all read APIs and a subsequent Save image are identical",
    note=A_NOTE + "; verdicts for headers attaching below the retained depth are treated as unspecified", tech=A_TECH),
  "C09": dict(engine="hdrmc", cat="model_checking", ref="DESIGN.md 3, 7 C09",
@@ -137,6 +137,20 @@ extra11 = {
  "C15": "; two further stages (before / after the handshake) on a repository without chain split points (any network but mainnet: empty verification locator)",
  "C17": "; first starts through Load with a configured list that repeats a hash or holds two, configured hashes unmarked like any other, one configuration value handed to every instance of a history, the configured list merged again at every restart",
 }
+# additions of seed round 14
+extra14 = {
+ "C03": "; verification replies handled while the repository is busy (its lock held for 1 s / 5 s / 90 s of virtual time): verified exactly for the BSV split header however long the handler waits",
+ "C05": "; a source that delivers every transaction and withholds the end of its stream for 12 s while a second source finishes",
+ "C06": "; the node manager's retry poll with one and two nodes left",
+ "C08": "; the bad-work / bad-bits verdict with the difficulty rules on: mined headers with right and wrong bits on main and side branches, the demoted real chain (powenum parts, merged)",
+ "C09": "; a header removed by marking is never reported as in the most-work chain",
+ "C13": "; on a repository without split points no peer is ever verified, whatever other connections of the process were shown",
+ "C15": "; messages left five bytes short with the connection open while the node is shut down",
+ "C17": "; an unmark with a second caller's mark arriving inside its write of the invalid list",
+ "C18": "; proofs that bring a merkle root of their own",
+ "C19": "; the tip the locator starts from must be the most-work tip of the reference tree (C01 oracle in every scenario)",
+ "C20": "; the free-running race-detector pass in the quick tier: an unsynchronised access pair inside the peer book is a violation",
+}
 # additions of seed round 13
 extra13 = {
  "C02": "; marks at 145 / 146 / 147 headers above the lowest header in memory",
@@ -162,6 +176,8 @@ extra12 = {
 for k, v in extra12.items():
     checks[k]["text"] += v
 for k, v in extra13.items():
+    checks[k]["text"] += v
+for k, v in extra14.items():
     checks[k]["text"] += v
 for k, v in extra.items():
     checks[k]["text"] += v
